@@ -14,7 +14,7 @@ ContentAddressedCache / MultiLayerCacheImpl with the backing store damaged in be
 functions.  T_Integrity (TLC) judges every recorded verdict (bindings T and E: regions from the recorded bytes,
 MD5 / lookup3 by the TLA+ definitions).
 """
-import glob, hashlib, json, os
+import glob, hashlib, json, os, time
 from concurrent.futures import ThreadPoolExecutor
 from . import lib
 
@@ -305,9 +305,10 @@ def selftest(ctx, kd):
 # --------------------------------------------------------------------------- main
 def run(ctx):
     kd = known(ctx)
-    lib.build([DRV])
+    bt = lib.build([DRV])
     if ctx.replay:
         return replay(ctx, kd)
+    ctx.stage("build", wall_s=round(bt, 2))
     quick = ctx.quick
     tier = "quick" if quick else "thorough"
     totals = {}
@@ -333,6 +334,7 @@ def run(ctx):
         rows = f_art.result()
         f_wide.result()
         cache_files = [f.result() for f in f_cache]
+    ctx.stage("mc_all", wall_s=round(time.time() - ctx.t0, 2))
 
     # ---- artifacts + validation functions: one trace
     progs = art_programs(rows, tier)
@@ -391,7 +393,9 @@ def run(ctx):
     os.remove(trace)
     runs += cache_runs
 
+    t = time.time()
     selftest(ctx, kd)
+    ctx.stage("selftest", wall_s=round(time.time() - t, 2), **ctx.cov["binding_selftest"])
 
     # ---- anti-vacuity: the interesting classes were really met on the real code
     for k in ("judged", "judged_rejected", "unjudged_accepted", "produce_checked", "val_true", "val_false", "gets_valid",
